@@ -8,7 +8,12 @@
 (*                                                                         *)
 (*   Alloc(t,h,a)   ubuf_block_alloc gave handle h on the NEW area a       *)
 (*   Refused(t)     ubuf_block_alloc returned NULL (the allocator refused) *)
-(*   Dup(t,h,from)  ubuf_dup of handle from gave handle h (same area)      *)
+(*   Dup(t,h,from)  ubuf_dup of handle from gave handle h (same areas)     *)
+(*   Append(t,h,a)  a buffer on the NEW area a was appended to handle h:    *)
+(*                  h holds a set of areas (segmented block)                *)
+(*   Foreign(t,h)   a segment of a manager without UBUF_DUP was appended    *)
+(*                  to h (no area of ours): ubuf_dup of h then fails        *)
+(*   DupFailed(t,from) ubuf_dup returned NULL: nothing may change          *)
 (*   Free(t,h)      ubuf_free(h) is called                                 *)
 (*   Return(t,a)    area a goes back to its allocator (umem_free)          *)
 (*   End            everything the program and its epilogue hold was freed *)
@@ -24,7 +29,7 @@
 EXTENDS Naturals, Integers, Sequences, FiniteSets, TLC, Json, IOUtils
 
 Tr == ndJsonDeserialize(IOEnv.TRACE)
-VARIABLES l, area,     \* handle -> area, for outstanding handles
+VARIABLES l, area,     \* handle -> set of areas it holds, for outstanding handles
           st,          \* area -> "live" | "returned"
           alc,         \* area -> allocator it came from
           gone,        \* allocators that ran their destructor
@@ -32,13 +37,14 @@ VARIABLES l, area,     \* handle -> area, for outstanding handles
 vars == <<l, area, st, alc, gone, skip, cur, bad>>
 Has(ev, f) == f \in DOMAIN ev
 
-Holders(a) == {h \in DOMAIN area : area[h] = a}
+Holders(a) == {h \in DOMAIN area : a \in area[h]}
 Upd(f, k, v) == [x \in DOMAIN f \cup {k} |-> IF x = k THEN v ELSE f[x]]
 Del(f, k) == [x \in DOMAIN f \ {k} |-> f[x]]
 
 Guard(ev) ==
   CASE ev.e = "Alloc" -> ev.a >= 0 /\ ev.a \notin DOMAIN st /\ ev.h \notin DOMAIN area
-    [] ev.e = "Refused" -> TRUE
+    [] ev.e = "Append" -> ev.a >= 0 /\ ev.a \notin DOMAIN st /\ ev.h \in DOMAIN area
+    [] ev.e \in {"Refused", "Foreign", "DupFailed"} -> TRUE
     [] ev.e = "Dup" -> ev.from \in DOMAIN area /\ ev.h \notin DOMAIN area
     [] ev.e = "Free" -> ev.h \in DOMAIN area
     \* exactly once, after the last holder let go, never while one is outstanding
@@ -50,8 +56,10 @@ Guard(ev) ==
     [] OTHER -> FALSE                       \* Crash, Hang
 
 Effect(ev) ==
-  CASE ev.e = "Alloc" -> /\ area' = Upd(area, ev.h, ev.a) /\ st' = Upd(st, ev.a, "live")
+  CASE ev.e = "Alloc" -> /\ area' = Upd(area, ev.h, {ev.a}) /\ st' = Upd(st, ev.a, "live")
                          /\ alc' = Upd(alc, ev.a, IF Has(ev, "u") THEN ev.u ELSE 0) /\ gone' = gone
+    [] ev.e = "Append" -> /\ area' = [area EXCEPT ![ev.h] = @ \cup {ev.a}] /\ st' = Upd(st, ev.a, "live")
+                          /\ alc' = Upd(alc, ev.a, 0) /\ gone' = gone
     [] ev.e = "Dup" -> area' = Upd(area, ev.h, area[ev.from]) /\ UNCHANGED <<st, alc, gone>>
     [] ev.e = "Free" -> area' = Del(area, ev.h) /\ UNCHANGED <<st, alc, gone>>
     [] ev.e = "Return" -> st' = [st EXCEPT ![ev.a] = "returned"] /\ UNCHANGED <<area, alc, gone>>
